@@ -341,6 +341,25 @@ def gen() -> None:
     # ---- wsgi.get_current_url: which parts reach sansio.utils.get_current_url
     wparts = _wsgi_parts(px.find_def(px.load("wsgi.py"), "get_current_url"))
 
+    # ---- wrappers.Request.__init__ / sansio Request.url: the request reconstructs its URL from the same decoded parts
+    #      as wsgi.get_current_url (so wsgi_current_uri with all flags off is also the model of Request.url)
+    rq = px.find_def(px.find_class(px.load("wrappers/request.py"), "Request"), "__init__")
+    sup = rq.body[1] if (rq.body and isinstance(rq.body[0], ast.Expr) and isinstance(getattr(rq.body[0], "value", None), ast.Constant)) else rq.body[0]
+    if not (isinstance(sup, ast.Expr) and isinstance(sup.value, ast.Call) and ast.unparse(sup.value.func) == "super().__init__"):
+        raise px.Unsupported("Request.__init__: the super().__init__ call is no longer the first statement")
+    kws = {k.arg: ast.unparse(k.value) for k in sup.value.keywords}
+    for key, want in (("scheme", "environ.get('wsgi.url_scheme', 'http')"), ("server", "_get_server(environ)"),
+                      ("root_path", "_wsgi_decoding_dance(environ.get('SCRIPT_NAME') or '')"),
+                      ("path", "_wsgi_decoding_dance(environ.get('PATH_INFO') or '')"),
+                      ("query_string", "environ.get('QUERY_STRING', '').encode('latin1')"),
+                      ("headers", "EnvironHeaders(environ)")):
+        if kws.get(key) != want:
+            raise px.Unsupported(f"Request.__init__: {key}={kws.get(key)}, the model was written for {key}={want}")
+    surl = px.find_def(px.find_class(px.load("sansio/request.py"), "Request"), "url")
+    _pin(surl, ["return get_current_url(self.scheme, self.host, self.root_path, self.path, self.query_string)"], "sansio Request.url", ["self"])
+    sfull = px.find_def(px.find_class(px.load("sansio/request.py"), "Request"), "full_path")
+    _pin(sfull, ["return f\"{self.path}?{self.query_string.decode(errors='replace')}\""], "sansio Request.full_path", ["self"])
+
     # ---- DispatcherMiddleware.__call__
     cls = px.find_class(disp, "DispatcherMiddleware")
     _pin(px.find_def(cls, "__call__"), DISPATCH_CALL, "DispatcherMiddleware.__call__", ["self", "environ", "start_response"])
@@ -717,6 +736,17 @@ def run(chk: Check) -> None:
             f"{o(str(server[1])) if server[1] is not None else '~'} {cps(script)} {cps(path_info)} {cps(qs)}", None)
         post.append((idx, "cururi", (st, got, (flags, scheme, hh, server, script, path_info, qs))))
         chk.case(("wcururi", flags, scheme, hh, server, script, path_info, qs), nontrivial=True)
+        # Request(environ).url is the same reconstruction with no flag set (Request.__init__ is pinned by the translator)
+        from werkzeug.wrappers import Request as _Rq
+        st2, got2 = guarded(lambda: _Rq(dict(environ)).url)
+        idx = len(lines)
+        add(f"wcururi 000 {cps(scheme)} {o(hh)} {cps(server[0])} "
+            f"{o(str(server[1])) if server[1] is not None else '~'} {cps(script)} {cps(path_info)} {cps(qs)}", None)
+        post.append((idx, "cururi", (st2, got2, ("Request.url", scheme, hh, server, script, path_info, qs))))
+        st3, got3 = guarded(lambda: wsgi_gcu(dict(environ)))
+        if st2 == "ok" and st3 == "ok" and got2 != got3:
+            chk.fail("request-url-vs-wsgi-url", f"Request(environ).url = {got2!r} but wsgi.get_current_url(environ) = {got3!r}",
+                     {"op": "request-url", "environ": {k: v for k, v in environ.items()}})
         # split_uri (the model of urlsplit on this URL subset) against the interpreter
         if rng.random() < 0.5:
             host = rng.choice(["h", "example.com:8080", "[::1]:5000", "10.0.0.80"])
@@ -776,6 +806,7 @@ def run(chk: Check) -> None:
 
     # ------------------------------------------------ EnvironBuilder -> Request, end to end
     _e2e(chk, quick, corpus)
+    _raw_query(chk, quick, corpus)
 
     # ------------------------------------------------ model side
     exe = chk.build_modelrun("C15")
@@ -1022,6 +1053,55 @@ def _e2e(chk, quick, corpus) -> None:
         chk.case(("e2e", mode, p, tuple(q.items()), base), nontrivial=True,
                  sample={"op": "EnvironBuilder->Request", "path": p, "query": q, "base_url": base, "impl": {"path": got_path, "url": got_url}}
                  if len(p) > 4 else None)
+
+
+def _raw_query(chk, quick, corpus) -> None:
+    """a query given as TEXT (raw, not percent-encoded non-ASCII) through EnvironBuilder(query_string=str) and through a
+    server-style latin-1 environ: query_string, args, full_path and both URL reconstructions give it back"""
+    from werkzeug.test import EnvironBuilder, create_environ
+    from werkzeug.wrappers import Request
+    from werkzeug.wsgi import get_current_url as wsgi_current_url
+    rng = chk.rng
+    alpha = ["a", "x", "1", "-", "_", ".", "~", "é", "ü", "ö", "ß", "Ж", "у", "к", "東", "京", "☃", "€", "\U0001f600", "ı", "\xa0", "\xff"]
+    word = lambda lo, hi: "".join(rng.choice(alpha) for _ in range(rng.randint(lo, hi)))
+    cases = [[(k, v) for k, v in pairs] for pairs in corpus.get("raw_query", [])]
+    for _ in range(700 if quick else 12000):
+        cases.append([(word(1, 3), word(0, 4)) for _ in range(rng.randint(1, 3))])
+    for pairs in cases:
+        text = "&".join(f"{k}={v}" for k, v in pairs)
+        for how in ("builder", "server"):
+            path = rng.choice(["/p", "/", "/ü/☃"])
+            inp = {"op": "raw-query", "given": how, "query_text": text, "path": path}
+            try:
+                if how == "builder":
+                    env = EnvironBuilder(path=path, base_url="http://example.org/app/", query_string=text).get_environ()
+                else:
+                    env = create_environ(path, base_url="http://example.org/app/")
+                    env["QUERY_STRING"] = text.encode("utf-8").decode("latin-1")      # raw bytes, seen as latin-1
+                r = Request(env)
+                got = dict(query_string=r.query_string, args=list(r.args.items(multi=True)), full_path=r.full_path, url=r.url)
+                w = wsgi_current_url(env)
+            except Exception as e:  # noqa: BLE001
+                chk.fail("raw-query-raises", f"{type(e).__name__}: {e}", inp)
+                continue
+            want_url = f"http://example.org/app{path}?{text}"
+            bad = []
+            if got["query_string"] != text.encode("utf-8"):
+                bad.append(f"Request.query_string = {got['query_string']!r}")
+            order = list(dict.fromkeys(k for k, _ in pairs))     # MultiDict.items(multi=True) groups the values of a key
+            if got["args"] != [(k, v) for kk in order for k, v in pairs if k == kk]:
+                bad.append(f"Request.args = {got['args']!r}")
+            if got["full_path"] != f"{path}?{text}":
+                bad.append(f"Request.full_path = {got['full_path']!r}")
+            if got["url"] != want_url:
+                bad.append(f"Request.url = {got['url']!r}, expected {want_url!r}")
+            if w != got["url"]:
+                bad.append(f"wsgi.get_current_url(environ) = {w!r} but Request.url = {got['url']!r}")
+            if bad:
+                chk.fail("request-query-raw-text", "; ".join(bad), inp)
+            chk.count("e2e:raw-query:" + how)
+            chk.case(("rawq", how, text, path), nontrivial=True,
+                     sample={"op": "raw query text", "given": how, "query_text": text, "impl": got["url"]} if len(text) > 8 else None)
 
 
 def replay(rep) -> int:
